@@ -177,6 +177,66 @@ func propC10(c *ctx) error {
 			}
 		}
 	}
+	// ---- quoted directive values that contain the OTHER quote character (in their literal text and inside blocks): the
+	// value ends at its own delimiter only, so it is interpreted in full, and an unterminated block after an inner quote
+	// is still an error at load
+	{
+		qn := c.n(200, 5000)
+		for i := 0; i < qn; i++ {
+			d, o := "'", "\""
+			if r.p(40) {
+				d, o = "\"", "'"
+			}
+			pieces := []string{"${a}", "say " + o + "hi" + o + " to ", o, "tail", "${" + o + "q" + o + "}", "v=", "${a}${a}", o + o, " "}
+			var val, want strings.Builder
+			for k := 1 + r.n(4); k > 0; k-- {
+				pc := r.pick(pieces)
+				val.WriteString(pc)
+				switch pc {
+				case "${a}":
+					want.WriteString("1")
+				case "${a}${a}":
+					want.WriteString("11")
+				case "${" + o + "q" + o + "}":
+					want.WriteString("q")
+				default:
+					want.WriteString(pc)
+				}
+			}
+			hasOther := strings.Contains(val.String(), o)
+			broken := r.p(35)
+			if broken {
+				val.WriteString(r.pick([]string{"${b", "${b + ", "${" + o + "never closed", "${b /* c", "${"}))
+				if r.p(50) {
+					val.WriteString(" x" + o + "y")
+				}
+			}
+			k := []string{"text", "title", "raw", "data-x"}[r.n(4)]
+			tsrc := "<p :" + k + "=" + d + val.String() + d + " id=k>x</p>"
+			rc := &renderCase{Files: [][2]string{{"t", tsrc}}, Tpl: "t", Data: vMap(kv{"a", vInt(1)}).j}
+			out, _, err := compareRender(c, rc, true)
+			if err != nil {
+				return err
+			}
+			res.eval("oq|"+tsrc, hasOther, J{"tpl": tsrc})
+			res.S3Checked++
+			res.count("other_quote_values")
+			if broken {
+				if out.Load == "ok" {
+					res.violate(rc.toJ(), "load error", J{"load": out.Load, "st": out.St, "out": out.text()}, "a quoted directive value with an unterminated block (after text containing the other quote character) loads")
+				}
+				continue
+			}
+			full := html.EscapeString(want.String())
+			if k == "raw" {
+				full = want.String()
+			}
+			if out.Load != "ok" || out.St != "ok" || !strings.Contains(out.text(), full) {
+				res.violate(rc.toJ(), "the whole value interpreted: "+full, J{"load": out.Load, "st": out.St, "out": out.text()},
+					"a quoted directive value containing the other quote character is not interpreted in full")
+			}
+		}
+	}
 	// ---- directive values: truncations
 	kinds := []string{"text", "raw", "if", "title", "with", "range", "insert", "elif"}
 	askCode := func(src string) (J, error) {
